@@ -82,7 +82,7 @@
  "backend": "cvc5",
  "props": ["C10"],
  "level": "B(24)",
- "tier": "thorough",
+ "tier": "quick",
  "harness": "h_legacy",
  "enforce": ["dx_hack_hash"],
  "defines": ["HT_CAP=24"],
@@ -100,7 +100,7 @@
  "backend": "cvc5",
  "props": ["C10"],
  "level": "U/k",
- "tier": "thorough",
+ "tier": "wip",
  "harness": "h_legacy",
  "enforce": ["dx_hack_hash"],
  "defines": ["HT_CAP=255"],
@@ -108,7 +108,7 @@
  "unwind_reason": "one iteration per name byte; ext4 name_len is an 8-bit on-disk field, so 255 is the format's maximum; unwinding assertions on",
  "timeout": 900,
  "functions": ["lib/ext2fs/dirhash.c:dx_hack_hash"],
- "assumes": ["0 <= len <= 255 (format constant)", "unsigned_flag is 0 or 1"],
+ "assumes": ["DOES NOT FINISH (cvc5 > 300 s, minisat > 300 s; the ite chain over 255 loop exits): kept wip for the record; every length is covered by ht_dirhash_loop_legacy (loop contract)", "0 <= len <= 255 (format constant)", "unsigned_flag is 0 or 1"],
  "native": true
 }
 */
@@ -151,7 +151,7 @@
  "name": "ht_dirhash_md4",
  "props": ["C10"],
  "level": "U/k",
- "tier": "wip",
+ "tier": "thorough",
  "harness": "h_dirhash",
  "replace": ["str2hashbuf", "halfMD4Transform"],
  "defines": ["HT_CAP=255", "HT_ALG=1", "HT_UF=1"],
@@ -169,7 +169,7 @@
  "name": "ht_dirhash_tea",
  "props": ["C10"],
  "level": "U/k",
- "tier": "wip",
+ "tier": "thorough",
  "harness": "h_dirhash",
  "replace": ["str2hashbuf", "TEA_transform"],
  "defines": ["HT_CAP=255", "HT_ALG=2", "HT_UF=1"],
@@ -293,7 +293,7 @@
   "C10"
  ],
  "level": "B(24)",
- "tier": "wip",
+ "tier": "quick",
  "harness": "h_dirhash",
  "defines": [
   "HT_CAP=24",
@@ -322,7 +322,7 @@
   "C10"
  ],
  "level": "U/k",
- "tier": "wip",
+ "tier": "quick",
  "harness": "h_dirhash_unsupp",
  "replace": [
   "str2hashbuf",
@@ -378,6 +378,37 @@
  "native": true
 }
 */
+/* VERIF-UNIT
+{
+ "name": "ht_dirhash2",
+ "props": [
+  "C10"
+ ],
+ "level": "U",
+ "tier": "quick",
+ "harness": "h_dirhash2",
+ "replace": [
+  "ext2fs_dirhash"
+ ],
+ "defines": [
+  "HT_CAP=255",
+  "HT_DH2=1"
+ ],
+ "unwind": 6,
+ "unwind_reason": "ext2fs_dirhash2 is loop-free; the bound serves the contract library's loops; unwinding assertions on",
+ "timeout": 300,
+ "functions": [
+  "lib/ext2fs/dirhash.c:ext2fs_dirhash2"
+ ],
+ "assumes": [
+  "ext2fs_dirhash is replaced by a contract that records which string (pointer, length, ghost byte) and which other arguments it is given and returns an arbitrary result (its own proofs: ht_dirhash_*)",
+  "the charset's casefold operation is a stub: it asserts that it is handed the name, its length and a PATH_MAX buffer, writes an arbitrary ghost byte into the buffer and returns an arbitrary length 0..255 or a negative errno",
+  "kernel ext4fs_dirhash() falls back to the opaque byte sequence for EVERY casefold failure; ext2fs_dirhash2 does so for -EINVAL and returns any other negative value as the error (lib/ext2fs/nls_utf8.c produces only -EINVAL and, for names longer than the 4096-byte buffer, -ENAMETOOLONG): accepted as the specification here",
+  "0 <= len <= 255"
+ ],
+ "native": false
+}
+*/
 #include "verif.h"
 #ifdef HT_UF
 /*
@@ -418,6 +449,9 @@ struct in_hash {
 	unsigned char folded[256];	/* what the casefold stub produces */
 	int hash_flags;
 	unsigned char has_charset;
+	long fold_ret2;			/* result of the (replaced) ext2fs_dirhash in ht_dirhash2 */
+	unsigned int gj;		/* ghost byte index into the hashed string */
+	unsigned char fold_byte;	/* what the casefold stub writes at gj */
 };
 struct in_hash IN;
 #include "verif_in.h"
@@ -487,6 +521,20 @@ static void str2hashbuf(const char *msg, int len, __u32 *buf, int num, int unsig
 	ENSURES(S2HB_WORD(0)) ENSURES(S2HB_WORD(1)) ENSURES(S2HB_WORD(2)) ENSURES(S2HB_WORD(3))
 	ENSURES(num != 8 || S2HB_WORD(4)) ENSURES(num != 8 || S2HB_WORD(5)) ENSURES(num != 8 || S2HB_WORD(6)) ENSURES(num != 8 || S2HB_WORD(7))
 	ASSIGNS(buf[0], buf[1], buf[2], buf[3]; num == 8: buf[4], buf[5], buf[6], buf[7]);
+
+#ifdef HT_DH2
+/* ghost record of the one call of ext2fs_dirhash made by the wrapper */
+static int g_dh_calls, g_dh_version, g_dh_len;
+static const char *g_dh_name;
+static const __u32 *g_dh_seed;
+static ext2_dirhash_t *g_dh_ret, *g_dh_minor;
+static unsigned char g_dh_byte;
+errcode_t ext2fs_dirhash(int version, const char *name, int len, const __u32 *seed, ext2_dirhash_t *ret_hash, ext2_dirhash_t *ret_minor_hash)
+	ENSURES(g_dh_calls == OLD(g_dh_calls) + 1 && g_dh_version == version && g_dh_name == name && g_dh_len == len && g_dh_seed == seed &&
+		g_dh_ret == ret_hash && g_dh_minor == ret_minor_hash && RET == IN.fold_ret2)
+	ENSURES(!(len > 0 && (int)IN.gj < len) || g_dh_byte == (unsigned char)name[IN.gj])
+	ASSIGNS(g_dh_calls, g_dh_version, g_dh_name, g_dh_len, g_dh_seed, g_dh_ret, g_dh_minor, g_dh_byte);
+#endif
 
 #ifndef HT_LOOPS
 static ext2_dirhash_t dx_hack_hash(const char *name, int len, int unsigned_flag)
@@ -686,6 +734,65 @@ void h_dirhash_loop(void)
 	if (IN.version == HH_LEGACY) dirhash_loop_common(HH_LEGACY); else dirhash_loop_common(HH_LEGACY_UNSIGNED);
 	if (IN.len > 200 && IN.has_seed && IN.want_minor && IN.version < 3 && IN.name[7] >= 128) REACH("long name, seeded, signed variant, high byte");
 	if (IN.len == 0 && !IN.has_seed && !IN.want_minor && IN.version >= 3) REACH("empty name, no seed pointer, no minor, unsigned variant");
+	REACH("end");
+}
+#endif
+
+#ifdef HT_DH2
+/*
+ * ext2fs_dirhash2: the casefold wrapper.  Kernel ext4fs_dirhash(): when the name is non-empty, the directory is casefolded and
+ * the filesystem has an encoding, the CASEFOLDED string is hashed (buffer of PATH_MAX bytes); if folding fails the raw bytes are
+ * hashed ("opaque sequence"); otherwise the raw name is hashed.  Everything else is handed through unchanged.
+ */
+static struct ext2fs_nls_table CS;
+static struct ext2fs_nls_ops OPS;
+static int g_fold_calls;
+static unsigned char *g_fold_dest;
+
+static int fold_stub(const struct ext2fs_nls_table *charset, const unsigned char *str, size_t len, unsigned char *dest, size_t dlen)
+{
+	g_fold_calls++;
+	g_fold_dest = dest;
+	__CPROVER_assert(charset == &CS && str == IN.name && len == (size_t)IN.len && dlen == PATH_MAX && __CPROVER_w_ok(dest, dlen),
+			 "CHECK:casefold gets the name, its length and a PATH_MAX buffer");
+	if (IN.fold_ret >= 0 && IN.gj < (unsigned)IN.fold_ret)
+		dest[IN.gj] = IN.fold_byte;
+	return IN.fold_ret;
+}
+
+void h_dirhash2(void)
+{
+	ext2_dirhash_t h, mh;
+	errcode_t r;
+
+	LOAD_IN();
+	h = IN.junk_hash;
+	mh = IN.junk_minor;
+	ASSUME(IN.len >= 0 && IN.len <= 255 && IN.fold_ret <= 255 && IN.gj < 255);
+	OPS.casefold = fold_stub;
+	CS.ops = &OPS;
+	g_dh_calls = g_fold_calls = 0;
+	if (IN.has_charset)
+		r = ext2fs_dirhash2(IN.version, (const char *)IN.name, IN.len, &CS, IN.hash_flags, IN.seed, &h, &mh);
+	else
+		r = ext2fs_dirhash2(IN.version, (const char *)IN.name, IN.len, NULL, IN.hash_flags, IN.seed, &h, &mh);
+
+	int folds = IN.len != 0 && IN.has_charset && (IN.hash_flags & EXT4_CASEFOLD_FL);
+	CHECK(g_fold_calls == (folds ? 1 : 0), "the name is folded iff it is non-empty, the directory is casefolded and the filesystem has an encoding");
+	if (folds && IN.fold_ret < 0 && IN.fold_ret != -EINVAL) {
+		CHECK(r == IN.fold_ret && g_dh_calls == 0, "casefold error other than -EINVAL: returned");
+	} else {
+		CHECK(g_dh_calls == 1 && r == IN.fold_ret2, "exactly one hash computation, its result is the result");
+		CHECK(g_dh_version == IN.version && g_dh_seed == IN.seed && g_dh_ret == &h && g_dh_minor == &mh, "version, seed and result pointers are handed through");
+		if (folds && IN.fold_ret >= 0) {
+			CHECK(g_dh_name == (const char *)g_fold_dest && g_dh_len == IN.fold_ret, "the casefolded string is hashed, with the length casefold returned");
+			CHECK(!(IN.fold_ret > 0 && (int)IN.gj < IN.fold_ret) || g_dh_byte == IN.fold_byte, "... byte for byte (ghost byte)");
+			REACH("folded");
+		} else {
+			CHECK(g_dh_name == (const char *)IN.name && g_dh_len == IN.len, "the raw name is hashed (no folding, or invalid sequence: opaque bytes)");
+			if (folds) REACH("invalid sequence: opaque");
+		}
+	}
 	REACH("end");
 }
 #endif
